@@ -13,12 +13,16 @@
    2. notifications
    3. refinement  — leaves after a request = the declarative spec on the leaf map, derived from
                     the two per-operation statements about DeleteNode / SetNode (premises)
+   3b. the premises discharged (Tree/LeavesBridgeProofs.v, LeavesPartsProofs.v, LeavesSetProofs.v,
+                    LeavesDelProofs.v, SetReqBridgeProofs.v): the refinement, the histories and the
+                    atomic notifications without premises, inside executable guards
    4. histories
    5. deviations  — witnesses *)
 From Coq Require Import String Ascii Permutation.
 From Ygot Require Import Tree.Tree Tree.Codec Tree.TreeOps Tree.Unmarshal Tree.KeyCodec Tree.Leaves
   Tree.Notif Tree.Node Tree.SetReq Tree.GnmiStatements Tree.SetReqSpec Tree.SetReqProofs Path.PathRel
   Properties.C01.
+From Ygot Require Import Tree.GnmiRt Tree.NodeFrameProofs Tree.NodeProofs Tree.LeavesPartsProofs Tree.SetReqBridgeProofs Tree.NodeExamples.
 
 (* ====================================================================================== *)
 (* 1. Structure                                                                           *)
@@ -222,6 +226,98 @@ Theorem c13_atomic_leaves : forall env fo ko sch o sem obs Inv dguard sguard,
         (In q (ps_alts sem (n_prefix n ++ fst u)) \/ In (q, w) (ps_keyleaves sem (n_prefix n ++ fst u))).
 Proof. exact atomic_notif_leaves. Qed.
 Print Assumptions c13_atomic_leaves.
+
+(* ====================================================================================== *)
+(* 3b. The premises discharged                                                            *)
+(* ====================================================================================== *)
+
+(* The two premises hold for the invariant SetReqBridgeProofs.c13_inv2:
+     c13_schemab sch = true  — the schema guard: GnmiRt.gn_schemab (the path alternatives of the
+        fields of a struct are pairwise incomparable and hold no empty name; list keys are found
+        consistently by the three key lookups), NodeFrameProofs.swfb, and every field that is not a
+        leaf or leaf-list has exactly one path (LeavesPartsProofs.single_pathb);
+     root_ok env fo ko sch t — the tree guard of C10 / C12: a container root, fields in struct
+        order, kinds match the schema, list entries carry key leaves equal to their map key, every
+        key is read back from its own string, Go-map entries in canonical order.
+   Both are executable (c13_inv2b) and preserved by every guarded operation.  The path guards are
+   the ones of SetReqSpec, unchanged.  With c13_inv (tree_ok) in the place of c13_inv2 the premises
+   are false on the model: c13_set_premise_refuted / c13_delete_premise_refuted below. *)
+Definition c13_delete_premise2 env fo ko sch : Prop :=
+  leaves_after_delete_stmt env ko sch no_opts (schema_sem env fo ko sch)
+    (fun t => leaves env ko false sch t []) (c13_inv2 env fo ko sch)
+    (fun p => delete_guardb env fo ko sch p = true).
+Definition c13_set_premise2 env fo ko sch : Prop :=
+  leaves_after_set_leaf_stmt env fo ko sch no_opts (schema_sem env fo ko sch)
+    (fun t => leaves env ko false sch t []) (c13_inv2 env fo ko sch)
+    (fun p x => update_guardb env fo ko sch p x = true).
+
+Theorem c13_delete_premise_holds : forall env fo ko sch, c13_delete_premise2 env fo ko sch.
+Proof. exact leaves_after_delete_holds. Qed.
+Print Assumptions c13_delete_premise_holds.
+
+Theorem c13_set_premise_holds : forall env fo ko sch, c13_set_premise2 env fo ko sch.
+Proof. exact leaves_after_set_holds. Qed.
+Print Assumptions c13_set_premise_holds.
+
+(* the invariant and the guards of a request are decided by boolean functions *)
+Theorem c13_inv2_decided : forall env fo ko sch t, c13_inv2b env fo ko sch t = true -> c13_inv2 env fo ko sch t.
+Proof. exact c13_inv2b_sound. Qed.
+Print Assumptions c13_inv2_decided.
+
+Theorem c13_req_guard_decided : forall env fo ko sch r, req_guardb env fo ko sch r = true ->
+  req_guard (fun p => delete_guardb env fo ko sch p = true) (fun p x => update_guardb env fo ko sch p x = true) r.
+Proof. exact req_guardb_sound. Qed.
+Print Assumptions c13_req_guard_decided.
+
+(* the refinement without premises: a guarded request on a guarded tree leaves exactly the leaves
+   of the gNMI reference semantics, and the result is a guarded tree again *)
+Theorem c13_refines_unconditional : forall env fo ko sch t r t' m,
+  c13_inv2 env fo ko sch t ->
+  req_guard (fun p => delete_guardb env fo ko sch p = true)
+            (fun p x => update_guardb env fo ko sch p x = true) r ->
+  leaves env ko false sch t [] = Ok m ->
+  unmarshal_setrequest env fo ko sch no_opts t r = (t', SROk) ->
+  c13_inv2 env fo ko sch t' /\
+  exists m', leaves env ko false sch t' [] = Ok m' /\ lm_equiv m' (spec_set (schema_sem env fo ko sch) m r).
+Proof. exact setrequest_refines_bridge. Qed.
+Print Assumptions c13_refines_unconditional.
+
+Theorem c13_history_unconditional : forall env fo ko sch rs t t' m,
+  c13_inv2 env fo ko sch t ->
+  (forall r, In r rs -> req_guard (fun p => delete_guardb env fo ko sch p = true)
+                                  (fun p x => update_guardb env fo ko sch p x = true) r) ->
+  leaves env ko false sch t [] = Ok m ->
+  run_requests env fo ko sch no_opts t rs = (t', SROk) ->
+  c13_inv2 env fo ko sch t' /\
+  exists m', leaves env ko false sch t' [] = Ok m' /\ lm_equiv m' (spec_history (schema_sem env fo ko sch) m rs).
+Proof. exact history_refines_bridge. Qed.
+Print Assumptions c13_history_unconditional.
+
+Theorem c13_history_notifs_unconditional : forall env fo ko sch ns t t' m,
+  c13_inv2 env fo ko sch t ->
+  (forall n, In n ns -> req_guard (fun p => delete_guardb env fo ko sch p = true)
+                                  (fun p x => update_guardb env fo ko sch p x = true) (req_of_notif n)) ->
+  leaves env ko false sch t [] = Ok m ->
+  unmarshal_notifs env fo ko sch no_opts t ns = (t', SROk) ->
+  c13_inv2 env fo ko sch t' /\
+  exists m', leaves env ko false sch t' [] = Ok m' /\
+             lm_equiv m' (spec_history (schema_sem env fo ko sch) m (map req_of_notif ns)).
+Proof. exact notifs_refine_bridge. Qed.
+Print Assumptions c13_history_notifs_unconditional.
+
+Theorem c13_atomic_leaves_unconditional : forall env fo ko sch n t t' m l',
+  n_atomic n = true -> n_deletes n = [] ->
+  c13_inv2 env fo ko sch t ->
+  req_guard (fun p => delete_guardb env fo ko sch p = true)
+            (fun p x => update_guardb env fo ko sch p x = true) (req_of_notif n) ->
+  leaves env ko false sch t [] = Ok m ->
+  unmarshal_notifs env fo ko sch no_opts t [n] = (t', SROk) -> leaves env ko false sch t' [] = Ok l' ->
+  forall q w, In (q, w) l' -> under (ps_alts (schema_sem env fo ko sch) (n_prefix n)) q = true ->
+    exists u, In u (n_updates n) /\
+      (In q (ps_alts (schema_sem env fo ko sch) (n_prefix n ++ fst u)) \/
+       In (q, w) (ps_keyleaves (schema_sem env fo ko sch) (n_prefix n ++ fst u))).
+Proof. exact atomic_notif_leaves_bridge. Qed.
+Print Assumptions c13_atomic_leaves_unconditional.
 
 (* ====================================================================================== *)
 (* 4. Histories                                                                           *)
@@ -441,3 +537,113 @@ Proof.
   split; [vm_compute; reflexivity|].
   intros m Hm. vm_compute in Hm. inversion Hm; subst m. intros q v. vm_compute. tauto.
 Qed.
+
+(* ---------- the unconditional refinement on the example ---------- *)
+(* the guards hold on c13_t0 / c13_req (one delete, one replace, three updates, one of them creating
+   the entry if[id=2] with its key leaves config/id and id) ... *)
+Example c13_ex_guards :
+  c13_inv2b c13_env c13_fo c13_ko c13_sch c13_t0 = true /\ req_guardb c13_env c13_fo c13_ko c13_sch c13_req = true.
+Proof. vm_compute. split; reflexivity. Qed.
+
+(* ... so c13_refines_unconditional applies: the leaves are those of the spec, the new tree is
+   guarded again; the key leaves of the created entry are among them *)
+Example c13_ex_unconditional : exists t' m m',
+  c13_run no_opts c13_t0 c13_req = (t', SROk) /\ c13_lv c13_t0 = Ok m /\ c13_lv t' = Ok m'
+  /\ c13_inv2 c13_env c13_fo c13_ko c13_sch t'
+  /\ lm_equiv m' (spec_set c13_sem m c13_req)
+  /\ In (elems (c13_if "2" "id"), LV (VInt U8 2)) m' /\ ~ In (elems (c13_if "2" "id")) (map fst m).
+Proof.
+  destruct c13_ex_guards as [Hi Hg].
+  destruct (c13_run no_opts c13_t0 c13_req) as [t' out] eqn:Er.
+  assert (Eo : out = SROk) by (vm_compute in Er; now injection Er as _ <-).
+  subst out. exists t'.
+  assert (Hm : exists m, c13_lv c13_t0 = Ok m) by (vm_compute; eauto). destruct Hm as (m & Hm). exists m.
+  destruct (c13_refines_unconditional c13_env c13_fo c13_ko c13_sch c13_t0 c13_req t' m
+              (c13_inv2_decided _ _ _ _ _ Hi) (c13_req_guard_decided _ _ _ _ _ Hg) Hm Er) as (Hi' & m' & Hm' & He).
+  exists m'. split; [reflexivity|]. split; [exact Hm|]. split; [exact Hm'|]. split; [exact Hi'|]. split; [exact He|].
+  vm_compute in Er. injection Er as <-. vm_compute in Hm. injection Hm as <-. vm_compute in Hm'. injection Hm' as <-.
+  split; [vm_compute; tauto|]. vm_compute. intros H. repeat (destruct H as [H|H]; [discriminate H|]). exact H.
+Qed.
+
+(* ---------- the same on the schema and tree of Tree/NodeExamples.v (the examples of C10 / C12) ---------- *)
+(* one delete, one replace, three updates that create list entries: interface eth9 (single string
+   key), subinterface 7 below the existing eth0 (nested list, uint32 key), acl (a2, ACL_IPV6)
+   (two keys, one an identityref; the keys of the path element in name order) *)
+Definition c13_acl2 : dpath :=
+  [el "acls"; elk "acl" [("name", "a2"); ("type", "ACL_IPV6")]; el "config"; el "description"]%string.
+Definition c13_node_req : sreq :=
+  {| sr_prefix := empty_gp;
+     sr_deletes := [gp_of p_hostname];
+     sr_replaces := [(gp_of (p_mtu "eth0"), TVUint 1400)];
+     sr_updates := [(gp_of (p_mtu "eth9"), TVUint 9100);
+                    (gp_of (p_subdescr "eth0" "7"), TVString (s_ "sub"));
+                    (gp_of c13_acl2, TVString (s_ "second"))] |}.
+
+Example c13_ex_node_guards :
+  c13_inv2b ex_env ex_fo ex_ko ex_schema ex_tree = true /\ req_guardb ex_env ex_fo ex_ko ex_schema c13_node_req = true.
+Proof. vm_compute. split; reflexivity. Qed.
+
+Example c13_ex_node_unconditional : exists t' m m',
+  unmarshal_setrequest ex_env ex_fo ex_ko ex_schema no_opts ex_tree c13_node_req = (t', SROk)
+  /\ leaves ex_env ex_ko false ex_schema ex_tree [] = Ok m /\ leaves ex_env ex_ko false ex_schema t' [] = Ok m'
+  /\ c13_inv2 ex_env ex_fo ex_ko ex_schema t'
+  /\ lm_equiv m' (spec_set (schema_sem ex_env ex_fo ex_ko ex_schema) m c13_node_req)
+  /\ length m = 15%nat /\ length m' = 25%nat.
+Proof.
+  destruct c13_ex_node_guards as [Hi Hg].
+  destruct (unmarshal_setrequest ex_env ex_fo ex_ko ex_schema no_opts ex_tree c13_node_req) as [t' out] eqn:Er.
+  assert (Eo : out = SROk) by (vm_compute in Er; now injection Er as _ <-).
+  subst out. exists t'.
+  assert (Hm : exists m, leaves ex_env ex_ko false ex_schema ex_tree [] = Ok m) by (vm_compute; eauto).
+  destruct Hm as (m & Hm). exists m.
+  destruct (c13_refines_unconditional ex_env ex_fo ex_ko ex_schema ex_tree c13_node_req t' m
+              (c13_inv2_decided _ _ _ _ _ Hi) (c13_req_guard_decided _ _ _ _ _ Hg) Hm Er) as (Hi' & m' & Hm' & He).
+  exists m'. split; [reflexivity|]. split; [exact Hm|]. split; [exact Hm'|]. split; [exact Hi'|]. split; [exact He|].
+  vm_compute in Er. injection Er as <-. vm_compute in Hm. injection Hm as <-. vm_compute in Hm'. injection Hm' as <-.
+  split; reflexivity.
+Qed.
+
+(* ---------- the premises with c13_inv (tree_ok) in the place of c13_inv2 are false on the model ---------- *)
+(* (a) SetNode does not preserve tree_ok: a decimal64 payload that the float tables of the oracle
+   do not list (here 0.25) is stored, but it is not a value tree_ok accepts (float_key_ok: the
+   tables must read it back).  An artefact of the finite oracle tables, not of ygot. *)
+Definition c13_dec_sch : schema := SCont [(fld1 "D" "d", SLeaf (YDec 2) [])].
+Theorem c13_set_premise_refuted : ~ c13_set_premise c13_env c13_fo c13_ko c13_dec_sch.
+Proof.
+  intros H.
+  destruct (H (TCont []) [c13_e "d" []] (TVDouble 4598175219545276416)
+              (TCont [(S_ "D", TLeaf (VDec 4598175219545276416))]) []) as [(_ & _ & Hok) _].
+  - split; [exists 5%nat; reflexivity|]. split; reflexivity.
+  - vm_compute. reflexivity.
+  - vm_compute. reflexivity.
+  - vm_compute. reflexivity.
+  - vm_compute in Hok. discriminate Hok.
+Qed.
+Print Assumptions c13_set_premise_refuted.
+
+(* (b) tree_ok does not fix the order of the entries of a Go map in the model (the harness prints
+   them sorted; tl_insert relies on it): on a list whose entries are not in canonical order the
+   update of entry 1 is stored as a second entry 1, the deleted leaf is still reported.  An
+   artefact of the representation of Go maps as sorted lists, excluded by root_ok. *)
+Definition c13_unsorted : tree :=
+  TCont [(S_ "If", TList [([VInt U8 3], TCont [(S_ "Id", TLeaf (VInt U8 3)); (S_ "Descr", TLeaf (VStr (S_ "c")))]);
+                          ([VInt U8 1], TCont [(S_ "Id", TLeaf (VInt U8 1)); (S_ "Descr", TLeaf (VStr (S_ "a")))])])].
+Theorem c13_delete_premise_refuted : ~ c13_delete_premise c13_env c13_fo c13_ko c13_sch.
+Proof.
+  intros H.
+  destruct (delete_node_st c13_env c13_ko false c13_sch c13_unsorted (elems (c13_if "1" "descr"))) as [t' r] eqn:Ed.
+  assert (Hr : r = Ok tt) by (vm_compute in Ed; now injection Ed as _ <-). subst r.
+  assert (Hm : exists m, leaves c13_env c13_ko false c13_sch c13_unsorted [] = Ok m) by (vm_compute; eauto).
+  destruct Hm as (m & Hm).
+  destruct (H c13_unsorted (elems (c13_if "1" "descr")) t' m) as [(_ & _ & Hok) _].
+  - split; [exists 10%nat; reflexivity|]. split; reflexivity.
+  - vm_compute. reflexivity.
+  - exact Ed.
+  - exact Hm.
+  - vm_compute in Ed. injection Ed as <-. vm_compute in Hok. discriminate Hok.
+Qed.
+Print Assumptions c13_delete_premise_refuted.
+
+(* the guard of the unconditional theorems rejects that tree *)
+Example c13_unsorted_rejected : c13_inv2b c13_env c13_fo c13_ko c13_sch c13_unsorted = false.
+Proof. vm_compute. reflexivity. Qed.
